@@ -36,7 +36,7 @@ CLAIMED = {
    ref="6 C07"),
  "C08": dict(
    text="Panic-freedom on arbitrary input: every byte string of length 0..6 (quick) / 0..10 (thorough) fed to each packet field decoder and combinator, frame unpacking in both modes (compressed content arbitrary via the model codec), BitStorage/PaletteContainer/Section.ReadFrom and Chunk.PutData from fresh and used receivers. Every Go run-time panic site (index, slice bound, make, nil, division, explicit panic) is a solver query on every path; negative length prefixes are covered for the full int32 range.",
-   note="accepted non-negative length prefixes are enumerated only up to input length + 2; reflect-driven decoders (Ary, NBTField, Chunk.ReadFrom, registry), JSON text components and the command dispatcher are not covered yet.",
+   note="accepted non-negative length prefixes are enumerated only up to input length + 2; JSON text components, chat NBT components and registry data are not covered. Also covered (reflect shim): Ary with 5 prefix types, NBTField into any/struct/map, BlockEntity and Chunk.ReadFrom incl. structured height maps of wrong sizes; the command dispatcher on every ASCII line of 0..5 (quick) / 0..7 bytes against three graphs built with the public builders.",
    ref="6 C08"),
  "C09": dict(
    text="For every byte string of length 0..5 (quick) / 0..9 (thorough) and each of 14 stream decoders (fixed-width fields, VarInt/VarLong, Position, UUID, String, ByteArray, BitSet, FixedBitSet, Option, uncompressed frame): the result under 1/2/3-byte fragmentation equals the contiguous read (value, count, error-ness, residual); a reader failing or ending at every offset before completion yields an error; a writer failing after k bytes makes WriteTo/Pack fail for every k.",
@@ -54,6 +54,10 @@ CLAIMED = {
    text="CFB8 against a byte-at-a-time reference with the block cipher as an uninterpreted function E (so the result holds for every 16-byte block cipher and key, AES included), 16 symbolic IV bytes, symbolic message of total length T in {0,1,2,15,16,17,31..35,48,49} (quick) / every T<=50 (thorough), split over 2 (quick) / 3 successive XORKeyStream calls at every split point, each call in place, into a disjoint buffer allocated before or after the source, or into a larger buffer; encrypt, decrypt and decrypt(encrypt(m))==m. The unsafe.Pointer aliasing tests are evaluated on synthetic addresses.",
    note="partially overlapping dst/src excluded (cipher.Stream contract); messages > 50 bytes outside; the encrypted Conn clause is not covered yet; native replay uses AES-128 with a fixed key for E.",
    ref="6 C10"),
+ "C13": dict(
+   text="Partial: PackXZ/UnpackXZ bijection on 0..15^2 with refusal outside (all int pairs); Section.SetBlock changes BlockCount by exactly [new non-air]-[old non-air] from a state reached by two arbitrary SetBlocks, with block.IsAir modelled exactly from the current registry (bounds + set of air ids), which with C12's array semantics gives the counter invariant by induction; ChunkToSave(ChunkFromSave(c)) keeps each of the six height maps (arbitrary raw longs) under its own name and the status, for chunks without sections; network form of a one-section chunk with 0..2 symbolic SetBlocks at chosen positions, an optional biome change, a symbolic height-map value and 0..1 block entity: read back into EmptyChunk(1) with identical blocks at the probed positions, block count, biomes, height maps, block entity, and exactly the bytes written consumed (through the reflect shim for the NBT height maps, Ary and NBTField).",
+   note="the block-state <-> (name, properties) bijection over the 26k registry states, biome names, 2..24 sections, light arrays and save-form block/biome palettes are outside (registry built by init from embedded gzip: not encodable); positions probed are fixed sets.",
+   ref="6 C13"),
  "C14": dict(
    text="One WriteSector step from an arbitrary valid region state: the real Load on an in-memory file whose header has K<=2 (quick) / 3 live chunks at coordinates from a fixed set with symbolic (sector,count) constrained only by the Anvil validity predicate inside S=6/8 sectors, then a write of length in {1,4092,4093} (quick) / {1,4091..4093,8187..8189} to a live or fresh coordinate: file is a valid Anvil image by an independent parser, written chunk and all others read back, absent stay absent, a fresh Load sees the same offsets and timestamps; over-limit writes refused without any write; 2- and 3-step histories from CreateWriter with PadToFullSector and reload. Validity is assumed and re-established, so histories of any length within the bounds are covered by induction.",
    note="clock constant within one WriteSector (vp.FreezeClock); K, S, coordinate set and length set bounded as stated; os.File not used (in-memory ReadWriteSeeker with and without WriterAt).",
